@@ -180,3 +180,6 @@ class Cov(np.ndarray):
         if orb.cov is not None:
             del orb.cov
         self._data["orb"] = orb
+        # Frame in which this private copy of the state vector is expressed.
+        # It has to follow the state vector the covariance is attached to
+        self._orb_frame = orb.frame
